@@ -346,16 +346,29 @@ func z12Body(sc z12Scenario) func() {
 		env := mcos.E
 		env.CrashEnabled = true
 		env.WritePrefixes = true
+		level := 0
 		env.OnCrash = func(label string) {
 			// the process is dead: nothing of it runs any more; a new one starts
+			level++
+			my := level
+			if my > 1 {
+				label = fmt.Sprintf("%s (crash %d, during the recovery from the previous one)", label, my)
+			}
 			mcrt.KillOthers()
 			ztResetGlobals()
-			env.CrashEnabled = false
+			// the recovery itself (start-up repair, repeated operation) may be cut short by a further crash
+			again := my < z12MaxCrashes
+			env.CrashEnabled = again
+			env.Frozen = !again
 			w.h = ztRouter()
 			if err := ztRestart(); err != nil {
 				fail(fmt.Sprintf("restart-fails: the server does not start on the store left by a crash %s: %v", label, err))
 				return
 			}
+			if level != my {
+				return
+			}
+			env.Frozen = true
 			w.checkResolvable(func(m string) { fail(m + " [crash " + label + "]") })
 			after := w.snapshot()
 			for name, raw := range before.Manifests {
@@ -366,8 +379,12 @@ func z12Body(sc z12Scenario) func() {
 					fail(fmt.Sprintf("bystander-changed: manifest %s, not involved in the %s, changed or vanished [crash %s]", name, sc.Op, label))
 				}
 			}
+			env.Frozen = !again
 			// repeat the operation
 			ok, detail := w.run(sc.Op)
+			if level != my {
+				return // a further crash ended this process too; the next one has taken over (and judged)
+			}
 			if !ok {
 				fail(fmt.Sprintf("redo-fails: repeating the %s after a crash %s fails: %s", sc.Op, label, detail))
 				return
@@ -376,6 +393,10 @@ func z12Body(sc z12Scenario) func() {
 				fail(fmt.Sprintf("restart-fails: after the repeated operation: %v", err))
 				return
 			}
+			if level != my {
+				return
+			}
+			env.Frozen = true
 			got := w.snapshot().semantic()
 			if ref, have := z12Ref[sc.Name]; have && got != ref {
 				fail(fmt.Sprintf("redo-differs: after crash %s + restart + repeating the %s the store differs from an uninterrupted run:\n--- interrupted+redo\n%s\n--- uninterrupted\n%s", label, sc.Op, got, ref))
@@ -418,6 +439,9 @@ func z12Scenarios(thorough bool) []z12Scenario {
 	return l
 }
 
+// z12MaxCrashes: how many times the process may die in one execution (the second time during the recovery)
+var z12MaxCrashes = 1
+
 type z12Chooser struct{}
 
 func (z12Chooser) Pick(kind string, opts []mcrt.Option) int { return 0 }
@@ -431,6 +455,7 @@ func ZZVerifC12() {
 	if p := evid.ReplayPath(); p != "" {
 		var rp ztReplay
 		if err := evid.LoadReplay(p, &rp); err == nil && rp.C12 != nil {
+			z12MaxCrashes = max(1, rp.Bounds[mcrt.Crash])
 			mcrt.Run(z12Chooser{}, mcrt.Config{MaxSteps: 30000}, z12Body(*rp.C12)) // reference first
 		}
 		ztReplayFile(p, "C12")
@@ -450,9 +475,11 @@ func ZZVerifC12() {
 	budget := 100 * gotime.Second
 	if thorough {
 		bounds[mcrt.Preempt] = 1 // crash under one non-default schedule of the download goroutines
+		bounds[mcrt.Crash] = 2   // a second crash during the start-up repair or the repeated operation
 		total = 3
 		budget = 18 * gotime.Minute
 	}
+	z12MaxCrashes = bounds[mcrt.Crash]
 	mk := func(n string) (func(), any, string) {
 		sc := by[n]
 		body := z12Body(sc)
